@@ -310,6 +310,10 @@ func c05Sizes(r *core.Report, pk string) {
 								readsFrom = true
 							}
 						}
+						// ... or a method of the reader itself (r.openBucket(offset))
+						if sel, isSel := core.Unparen(c.Fun).(*ast.SelectorExpr); isSel && has.RecvObj() != nil && core.ObjOf(info, sel.X) == types.Object(has.RecvObj()) {
+							readsFrom = true
+						}
 						if h := p.ByObj[fo.Origin()]; readsFrom && h != nil && h.Body != nil && h.Pkg == has.Pkg && len(h.Body.List) <= 8 {
 							if hw := decodeWidth(h.Pkg.TypesInfo, h.Body, true); hw > 0 {
 								w = hw
@@ -323,7 +327,27 @@ func c05Sizes(r *core.Report, pk string) {
 		return w
 	}
 	cntBuf = decodeWidth(hi, has.Body, false)
-	for _, fn := range has.AllWithLits() {
+	// the functions in which the bucket is addressed: Has, its literals, and the methods of the reader it calls directly
+	// (r.openBucket(offset)); a parameter of such a method stands for the argument Has passes
+	scope := has.AllWithLits()
+	argOf := map[types.Object]ast.Expr{}
+	for _, c := range core.CallsIn(has.Body, true) {
+		sel, isSel := core.Unparen(c.Fun).(*ast.SelectorExpr)
+		if !isSel || has.RecvObj() == nil || core.ObjOf(hi, sel.X) != types.Object(has.RecvObj()) {
+			continue
+		}
+		if fo := core.Callee(hi, c); fo != nil {
+			if h := p.ByObj[fo.Origin()]; h != nil && h.Body != nil && h.Pkg == has.Pkg && h != has {
+				scope = append(scope, h.AllWithLits()...)
+				for ai, a := range c.Args {
+					if po := h.ParamObj(ai); po != nil {
+						argOf[po] = a
+					}
+				}
+			}
+		}
+	}
+	for _, fn := range scope {
 		ast.Inspect(fn.Body, func(n ast.Node) bool {
 			switch x := n.(type) {
 			case *ast.CallExpr:
@@ -336,6 +360,12 @@ func c05Sizes(r *core.Report, pk string) {
 							// <bucket offset looked up in the prefix table> + K
 							if v, isC := core.ConstInt(hi, be.Y); isC {
 								if o := core.ObjOf(hi, stripConvs(hi, be.X)); o != nil {
+									if a, isParam := argOf[o]; isParam {
+										o = core.ObjOf(hi, stripConvs(hi, a))
+									}
+									if o == nil {
+										continue
+									}
 									if d := singleDef(has, o); d != nil {
 										if _, isIx := core.Unparen(d).(*ast.IndexExpr); isIx {
 											skip = v
